@@ -257,7 +257,7 @@ def run_engine_unit(res, unit):
         EpochConfig(EpochType.BURNIN, 10, 1, None),
         EpochConfig(EpochType.POSTERIOR, 10, 1, None),
     ])
-    derived = ["sigma", "eta", "pred", "rep_stat", "w", "w_transformed_log_prob", "mu_log_prob", "beta_log_prob", "log_sigma_log_prob", "sigma_log_prob", "z_log_prob", "offset_log_prob", "y_log_prob", "_model_log_prob", "_model_log_prior", "_model_log_lik"]
+    derived = ["sigma", "eta", "eta_twice", "pred", "rep_stat", "w", "w_transformed_log_prob", "mu_log_prob", "beta_log_prob", "log_sigma_log_prob", "sigma_log_prob", "z_log_prob", "offset_log_prob", "y_log_prob", "_model_log_prob", "_model_log_prior", "_model_log_lik"]
     b.positions_included = kl.PARAMS + derived
     with seams.quiet():
         eng = b.build()
